@@ -196,6 +196,21 @@ func c04targeted() []c04input {
 	mk("empty-discount-rows", func(n *jmut.Node) {
 		n.Get("lines").A[0].Set("discounts", jmut.Ar(jmut.O(jmut.Member{Key: "percent", Val: jmut.S("0%")}), jmut.O(jmut.Member{Key: "percent", Val: jmut.S("10%")}, jmut.Member{Key: "reason", Val: jmut.S("x")})))
 	})
+	// a rounding adjustment written with more decimals than the currency, on
+	// totals whose fraction lies near a rounding boundary
+	for _, price := range []string{"10.01", "10.00", "33.33", "0.99", "19.995"} {
+		for _, rnd := range []string{"0.004", "-0.004", "0.0051", "-0.0049", "0.00001", "0.015"} {
+			price, rnd := price, rnd
+			mk("preset-rounding-extra-decimals", func(n *jmut.Node) {
+				l := n.Get("lines").A[0]
+				l.Get("item").Set("price", jmut.S(price))
+				l.Set("quantity", jmut.S("1"))
+				l.Del("discounts")
+				n.Get("lines").A = n.Get("lines").A[:1]
+				n.Set("totals", jmut.O(jmut.Member{Key: "rounding", Val: jmut.S(rnd)}))
+			})
+		}
+	}
 	mk("no-currency-no-type", func(n *jmut.Node) { n.Del("currency"); n.Del("type") })
 	mk("unknown-addon", func(n *jmut.Node) { n.Set("$addons", jmut.Ar(jmut.S("zz-unknown-v1"))) })
 	mk("payment-advances-percent", func(n *jmut.Node) {
@@ -386,6 +401,13 @@ func runC04(c *Ctx) {
 		}
 		inputs = append(inputs, c04input{Origin: class, Data: d.JSON, Class: class})
 	}
+	// payments whose lines carry document tax summaries
+	{
+		prng := c.Rand(31)
+		for i := 0; i < c.N(600, 20000); i++ {
+			inputs = append(inputs, c04input{Origin: "generated-payment", Data: genPayment(prng, i), Class: "generated-payment"})
+		}
+	}
 	c.R.Set("inputs", len(inputs))
 
 	hashes := make([]string, len(inputs))
@@ -564,7 +586,7 @@ func runC04(c *Ctx) {
 		c.R.Count("cross_process_comparisons", int64(len(sel)))
 	}
 	c04cliRepeat(c, tmp)
-	c.Require("pipelines:corpus", "pipelines:generated", "pipelines:source", "pipelines:regime-tag", "cross_process_comparisons", "readonly_ops_checked", "cli_repeated_builds")
+	c.Require("pipelines:corpus", "pipelines:generated", "pipelines:generated-payment", "pipelines:source", "pipelines:regime-tag", "cross_process_comparisons", "readonly_ops_checked", "cli_repeated_builds")
 }
 
 // c04cliRepeat: the same `gobl build` command line, with values merged from
